@@ -359,7 +359,7 @@ def check_decomposition(ctx):
         shapes[cname] = tab
         ctx.ob("C08.4", site, tab == shape.expected_table(True, False), "bins are half-open [e_i, e_i+1) on consecutive edges", loc=prog.loc(m, e["node"]),
                msg="%s bins denote %s: a probability on an interior edge falls into two bins or none" % (cname, tab), expected=shape.expected_table(True, False), found=tab)
-        b = ev.loops[0]["iter"]
+        b = symeval.consecutive_pair_space(ev.loops[0]["iter"])          # zip(e[:-1], e[1:]) visits the pairs i, i+1 for i in range(len(e) - 1)
         rng = q.top(b, "call:range")
         ok_rng = rng is not None and rng.args[-1].equals(form.apply("len", [S("self._edges")]) - Rat.const(1)) and (len(rng.args) == 1 or rng.args[0].is_zero())
         ctx.ob("C08.4", site, ok_rng, "every pair of consecutive edges is visited", loc=prog.loc(m, e["node"]), msg="bin loop iterates over %s" % b)
